@@ -54,9 +54,15 @@ TRUSTED_BASE = [
     "2^-40 relative are compared float-vs-binary only, not against the exact model",
     "translator pnpoly_pyx.py (tokeniser + precedence parser for the loop condition, "
     "exact skeleton match of the loop) and decythonize_geometry.py",
-    "oracle hypotheses of C15_roundtrip_partial: fmtf/parsef round-trip and token "
-    "shape of '{:.16e}'/np.float64, '{:08d}'/int() (both checked on every generated "
-    "coordinate/id by the property oracle, not proved)",
+    "oracle hypotheses of C15_roundtrip_partial (explicit premises of the theorem): "
+    "np.float64('{:.16e}'.format(v)) == v and the printed coordinate is a non-empty token "
+    "without blank, '=', '[' or ']'; int('{:08d}'.format(n)) == n and the printed integer is "
+    "non-empty ASCII digits. Checked on every generated coordinate/identifier through the "
+    "implementation (bit-exact reload), not proved about CPython/numpy",
+    "the executable instance of the persistence model used in the correspondence writes "
+    "coordinates as decimal integers (cases with integer-valued coordinates; the real text "
+    "is normalised token by token); universal-newline reading, str.strip()'s blank set and "
+    "ASCII lower() are modelled, other Unicode case mappings are not",
     "the compiled _pnpoly wrapper (astype(np.double), memoryviews) is exercised, not modelled",
 ]
 ASSUMPTIONS = [
@@ -79,7 +85,8 @@ HEADER = ("From Coq Require Import ZArith QArith List String.\nImport ListNotati
           "From Verif Require Import Model.C15 Gen.PnpolyGen.\n"
           "Definition gen_cross_pt (vi vj p : pt) : bool :=\n"
           "  gen_cross (fst vi) (snd vi) (fst vj) (snd vj) (fst p) (snd p).\n"
-          "Definition c15_all c := [run_case gen_cross_pt c; run_case model_cross c] ++ run_aux c.\n")
+          "Definition c15_all c := [run_case gen_cross_pt c; run_case model_cross c] ++ run_aux c.\n"
+          "Definition c15_two c := [run_case gen_cross_pt c; run_case model_cross c].\n")
 HEADER_P = ("From Coq Require Import ZArith List String.\nImport ListNotations.\n"
             "From Verif Require Import Model.C15.\n")
 
@@ -891,38 +898,68 @@ def run(run):
                                else "inside" if j["inside"] else "outside"))
         if r["fail"] is not None:
             run.oracle_failure(c, r["fail"], None)
-    model = common.coq_map(run.scratch, "c15g", HEADER, "c15_all",
-                           [render_geom(c) for c in geom], shard=40)
-    for c, m, r in zip(geom, model, impl):
-        run.corr_checked += 1
-        gen_res, mod_res, wn_odd, bnd, left = m
-        judge = r["judge"]
+    # Coq evaluation. Integer-grid polygons: both predicates plus the three
+    # auxiliary evaluators on every point. Float polygons (numerators and
+    # denominators of hundreds of bits, slow in the VM): a bounded number of
+    # cases, the first points only, both predicates.
+    INTEGER = ("grid", "selfx", "dup", "collinear", "rect", "hand", "sweep")
+    full_idx = [k for k, c in enumerate(geom) if c.get("shape") in INTEGER]
+    float_idx = [k for k, c in enumerate(geom) if c.get("shape") not in INTEGER]
+    float_idx = float_idx[:(400 if run.thorough else 45)]
+    NPT = 6
+    model = {}
+    res = common.coq_map(run.scratch, "c15g", HEADER, "c15_all",
+                         [render_geom(geom[k]) for k in full_idx], shard=25)
+    for k, m in zip(full_idx, res):
+        model[k] = m
+    res = common.coq_map(run.scratch, "c15f", HEADER, "c15_two",
+                         [render_geom(dict(geom[k], pts=geom[k]["pts"][:NPT]))
+                          for k in float_idx], shard=6)
+    for k, m in zip(float_idx, res):
+        model[k] = m
+    run.count("coq-geometry-full", len(full_idx))
+    run.count("coq-geometry-float", len(float_idx))
+    for k, c in enumerate(geom):
+        r = impl[k]
         inv = c["inv"]
+        judge = r["judge"]
+        # the two executions of the source text against each other / the binary
         if r["src_exact"] is not None:
-            want = r["src_exact"] if isinstance(r["src_exact"], str) else \
-                [b ^ inv for b in r["src_exact"]]
+            run.corr_checked += 1
+            if isinstance(r["src_float"], str) or isinstance(r["src_exact"], str):
+                run.mismatch(c, r["src_float"], r["binary"], what="pyx-binary-divergence")
+                continue
+            if [b ^ inv for b in r["src_float"]] != r["binary"]:
+                run.mismatch(c, [b ^ inv for b in r["src_float"]], r["binary"],
+                             what="pyx-binary-divergence")
+                continue
+            bad = [i for i, j in enumerate(judge) if not j["near"]
+                   and r["src_float"][i] != r["src_exact"][i]]
+            if bad:
+                run.mismatch(c, r["src_exact"], r["src_float"],
+                             what="binary64 evaluation differs from exact evaluation "
+                                  "outside the 2^-40 margin (points %r)" % bad[:3])
+                continue
+        if k not in model:
+            continue
+        m = model[k]
+        n = len(m[0])
+        gen_res, mod_res = m[0], m[1]
+        if r["src_exact"] is not None:
+            want = [b ^ inv for b in r["src_exact"][:n]]
             if gen_res != want:
                 run.mismatch(c, gen_res, want, what="generated predicate vs exact source")
                 continue
             if mod_res != want:
                 run.mismatch(c, mod_res, want, what="model_cross vs exact source")
                 continue
-            if r["src_float"] != r["binary"] and not isinstance(r["src_float"], str):
-                sf = [b ^ inv for b in r["src_float"]]
-                if sf != r["binary"]:
-                    run.mismatch(c, sf, r["binary"], what="pyx-binary-divergence")
-                    continue
-            if isinstance(r["src_float"], str):
-                run.mismatch(c, r["src_float"], r["binary"], what="pyx-binary-divergence")
-                continue
-        ok = True
-        for k, j in enumerate(judge):
-            if bnd[k] != j["bnd"]:
-                ok = False
-            if not j["bnd"]:
-                if wn_odd[k] != (j["wn"] & 1) or left[k] != j["inside"]:
+        ok = all(j["near"] or mod_res[i] == r["binary"][i] for i, j in enumerate(judge[:n]))
+        if len(m) == 5:
+            wn_odd, bnd, left = m[2], m[3], m[4]
+            for i, j in enumerate(judge):
+                if bnd[i] != j["bnd"]:
                     ok = False
-                if not j["near"] and (mod_res[k] != r["binary"][k]):
+                if not j["bnd"] and (wn_odd[i] != (j["wn"] & 1) or left[i] != j["inside"]):
                     ok = False
         if not ok:
             run.mismatch(c, m, dict(binary=r["binary"], judge=judge),
